@@ -81,3 +81,6 @@ func sanitize(s string) string {
 	r := strings.NewReplacer("/", "_", ".", "_", "*", "P", "(", "", ")", "", " ", "_", "$", "S", "[", "L", "]", "R", ",", "_", "{", "", "}", "", "-", "_")
 	return r.Replace(s)
 }
+
+// inTree(c, x): object x belongs to the tree of configuration c; the tree of the nil configuration is empty.
+const inTreeDecl = "(declare-fun inTree (Int Int) Bool)\n(assert (forall ((x Int)) (! (not (inTree 0 x)) :pattern ((inTree 0 x)))))"
